@@ -756,7 +756,17 @@ fn run_dup(fd: i32, mode: ModeK, rot: Option<NamingK>) -> Result<usize, Fail> {
         None => Cfg::norot(),
     };
     cfg.mode = mode;
-    let lb = cfg.logger(&env.dir, &env.err);
+    // (a second FileLogWriter gets every record, too: what the duplicate stream does must not
+    // keep anything from it either)
+    let second_dir = env.root.path().join("second");
+    let second = flexi_logger::writers::FileLogWriter::builder(flexi_logger::FileSpec::default().directory(&second_dir).basename("second").suppress_timestamp())
+        .format(crate::lg::payload_format)
+        .try_build()
+        .map_err(|e| Fail {
+            clause: "run-error",
+            detail: format!("build second writer: {e}"),
+        })?;
+    let lb = cfg.logger(&env.dir, &env.err).log_to_file_and_writer(cfg.parts.file_spec(&env.dir), Box::new(second));
     let lb = if fd == 2 { lb.duplicate_to_stderr(flexi_logger::Duplicate::All) } else { lb.duplicate_to_stdout(flexi_logger::Duplicate::All) };
     let (logger, handle) = lb.build().map_err(|e| Fail {
         clause: "run-error",
@@ -805,6 +815,13 @@ fn run_dup(fd: i32, mode: ModeK, rot: Option<NamingK>) -> Result<usize, Fail> {
         return Err(Fail {
             clause: "unrelated-record-lost",
             detail: format!("writing the duplicates failed (stream is a full device), the log files must hold every record exactly once:\n   files hold {:?}\n   logged     {:?}", String::from_utf8_lossy(&stream), String::from_utf8_lossy(&accepted)),
+        });
+    }
+    let second_content = std::fs::read(second_dir.join("second.log")).unwrap_or_default();
+    if second_content != accepted {
+        return Err(Fail {
+            clause: "unrelated-record-lost",
+            detail: format!("writing the duplicates failed (stream is a full device), the second writer of log_to_file_and_writer must hold every record exactly once:\n   its file holds {:?}\n   logged         {:?}", String::from_utf8_lossy(&second_content), String::from_utf8_lossy(&accepted)),
         });
     }
     if errs_during == 0 {
